@@ -52,7 +52,20 @@ def seg_graph(make, feed, canon, observe, stream: bytes, max_nodes=200000, expec
             terminal.setdefault(key[2], path)
             continue
         for k in range(1, n - off + 1):
-            obj = build(path)
+            # a node is re-created by replaying its path on a fresh object: that replay must land in the very state the node stands for;
+            # if it raises or lands elsewhere, a fresh instance does not behave like the earlier fresh instance did (state shared between
+            # instances, or hidden nondeterminism) - reported, never trusted
+            try:
+                obj = build(path)
+                rk = (off, canon(obj), observe(obj))
+            except Exception as e:  # noqa: BLE001
+                transitions += 1
+                errors.append((path, f"a fresh instance fails on a prefix an earlier fresh instance accepted: {type(e).__name__}: {e}"))
+                break
+            if rk != key:
+                transitions += 1
+                errors.append((path, "a fresh instance fed an explored prefix ends in another state than the earlier fresh instance did (state shared between instances?)"))
+                break
             try:
                 feed(obj, stream[off : off + k])
             except Exception as e:  # noqa: BLE001
